@@ -500,6 +500,79 @@ func genCorpus() {
 			add(caseT{Kind: "rename", What: a.what + ", " + lay, Renames: "autoname", Length: a.length, Gofmt: gofmt}, files, modes)
 		}
 	}
+	// --- multi-file packages with in-package _test.go files whose names sort before / between the other
+	// files (the loader lists test files last: file order by name and loader order differ); the call that
+	// keeps its name (anchor) and the call that is renamed (target) are placed in each file in turn; every
+	// file carries its own declarations and comments, so a file written with another file's contents shows
+	multi := []string{"a_test.go", "eq.go", "eq_test.go", "util.go", "zz_test.go"}
+	filler := func(fn string, i int) string {
+		return fmt.Sprintf("// file %s of the package: its own doc comment.\npackage PKG\n\n// Marker%d belongs to %s only.\nfunc Marker%d() string {\n\treturn %q // trailing remark in %s\n}\n", fn, i, fn, i, fn, fn)
+	}
+	for ai, anchor := range multi {
+		for ti, target := range multi {
+			if ai == ti {
+				continue
+			}
+			for _, kind := range []string{"dedup", "autoname"} {
+				if kind == "autoname" && !*thorough && (ai+ti)%3 != int(*seed)%3 {
+					continue
+				}
+				files := map[string]string{}
+				for i, fn := range multi {
+					files[fn] = filler(fn, i)
+				}
+				files["types.go"] = "package PKG\n" + types2
+				files[anchor] += "\n// Anchor keeps the name of its derive call.\nfunc Anchor(a, b *S) bool {\n\treturn deriveEqual(a, b) // anchor call\n}\n"
+				if kind == "dedup" {
+					files[target] += "\n// Target holds the duplicate.\nfunc Target(a, b *S) bool {\n\t// a second name for the same argument types\n\treturn deriveEqualSecondName(a, b) // target call\n}\n"
+				} else {
+					files[target] += "\n// Target holds the conflicting call.\nfunc Target(a, b *T) bool {\n\t// the same name for other argument types\n\treturn deriveEqual(a, b) // target call\n}\n"
+				}
+				modes := bystanders(files)
+				add(caseT{Kind: "rename", What: fmt.Sprintf("multi-file with in-package test files, %s: anchor in %s, clashing call in %s", kind, anchor, target),
+					Renames: kind, Length: map[string]string{"dedup": "shorter", "autoname": "longer"}[kind], Gofmt: true}, files, modes)
+			}
+		}
+	}
+
+	// --- renames that happen in a SECOND generation round: the argument of the clashing call is itself a
+	// derive call that does not exist yet, so the call is registered (and renamed) only after the reload;
+	// the file carries package doc, doc comments, inline / trailing comments and //go: directives
+	secondRound := func(call string) string {
+		return "// Package PKG: the package documentation must survive the rewrite.\n//\n// Second paragraph of the package documentation.\npackage PKG\n\nimport \"strconv\"\n\n" +
+			"//go:generate echo a directive that must stay\n\n// EqInts compares two lists of numbers.\nfunc EqInts(a, b []int) bool {\n\t// this call keeps its name\n\treturn deriveEqual(a, b) // trailing remark one\n}\n\n" +
+			"// EqStrings compares two lists of strings.\nfunc EqStrings(a, b []string) bool {\n\treturn deriveEqualStrings(a, b) /* block remark */\n}\n\n" +
+			"// EqDecimal compares the decimal form of xs with ys.\n//\n// The argument of the outer call is itself a derive call: it is registered in the second round.\n//\n//go:noinline\nfunc EqDecimal(xs []int, ys []string) bool {\n\t// this call clashes and is renamed in the second round\n\treturn " + call + " // trailing remark two\n}\n\n" +
+			"/* a block comment between declarations */\n\n// Tail is declared after the renamed call.\nfunc Tail() string {\n\treturn \"tail\" // the end\n}\n\n// a comment at the very end of the file\n"
+	}
+	for _, sr := range []struct{ what, call, flags, length string }{
+		{"second-round conflict (deriveEqual for []int and, after deriveFmap exists, for []string)", "deriveEqual(deriveFmap(strconv.Itoa, xs), ys)", "autoname", "longer"},
+		{"second-round duplicate (a second name for []string, known only after deriveFmap exists)", "deriveEqualOfDecimals(deriveFmap(strconv.Itoa, xs), ys)", "dedup", "shorter"},
+	} {
+		for _, lay := range []string{"onefile", "twofiles", "unformatted"} {
+			src := secondRound(sr.call)
+			if sr.flags == "autoname" {
+				src = strings.Replace(src, "deriveEqualStrings(a, b)", "deriveEqualStr(a, b)", 1)
+			}
+			files := map[string]string{}
+			gofmt := true
+			switch lay {
+			case "onefile":
+				files["u.go"] = src
+			case "twofiles":
+				i := strings.Index(src, "// EqDecimal compares")
+				j := strings.Index(src, "/* a block comment between")
+				files["a.go"] = src[:i] + src[j:]
+				files["b.go"] = "// second file: the second-round call lives here.\npackage PKG\n\nimport \"strconv\"\n\n" + src[i:j] + "// end of b.go\n"
+			case "unformatted":
+				files["u.go"] = uglify(r, src)
+				gofmt = false
+			}
+			modes := bystanders(files)
+			add(caseT{Kind: "rename", What: sr.what + ", " + lay, Renames: sr.flags, Length: sr.length, Gofmt: gofmt}, files, modes)
+		}
+	}
+
 	{
 		// both kinds in one package
 		src := "package PKG\n" + types2 +
